@@ -359,6 +359,73 @@ fn source_variants() -> Option<Vec<String>> {
 	Some(v)
 }
 
+/// Every string literal of the source file that could be a marker name (a superset of the marker list:
+/// the point is not to depend on the harness's own table).
+fn source_marker_candidates() -> Vec<String> {
+	let src = std::fs::read_to_string("/repo/crates/project-origins/src/lib.rs").unwrap_or_default();
+	let mut out = std::collections::BTreeSet::new();
+	for line in src.lines() {
+		let t = line.trim_start();
+		if t.starts_with("//") {
+			continue;
+		}
+		let mut rest = line;
+		while let Some(a) = rest.find('"') {
+			let after = &rest[a + 1..];
+			let Some(b) = after.find('"') else { break };
+			let lit = &after[..b];
+			if !lit.is_empty() && lit.len() < 40 && lit.chars().all(|c| c.is_ascii_alphanumeric() || "._-+".contains(c)) {
+				out.insert(lit.to_string());
+			}
+			rest = &after[b + 1..];
+		}
+	}
+	out.into_iter().collect()
+}
+
+#[derive(Clone, Debug, Serialize, Deserialize)]
+pub struct SourceMarkerCase {
+	pub name: String,
+	pub as_dir: bool,
+}
+
+/// Whatever `types()` reports for a directory holding just this entry must be classified, whether or not
+/// the harness has ever heard of that project type.
+fn run_source_marker(c: &SourceMarkerCase) -> Outcome {
+	let mut o = Outcome::pass();
+	let tmp = match tempfile::Builder::new().prefix("vh-c20m-").tempdir_in(scratch_root()) {
+		Ok(t) => t,
+		Err(e) => {
+			o.fail("env:tempdir", e.to_string());
+			return o;
+		}
+	};
+	let dir = tmp.path().join("d");
+	let _ = std::fs::create_dir_all(&dir);
+	let entry = dir.join(&c.name);
+	if c.as_dir {
+		let _ = std::fs::create_dir_all(&entry);
+	} else {
+		let _ = std::fs::write(&entry, b"x");
+	}
+	let rt = tokio::runtime::Builder::new_current_thread().enable_all().build().unwrap();
+	let types = rt.block_on(project_origins::types(&dir));
+	o.nontrivial = !types.is_empty();
+	if !types.is_empty() {
+		o.label("recognised-marker");
+	}
+	for t in &types {
+		if t.is_vcs() == t.is_soft() {
+			o.fail(
+				"classification:neither-or-both",
+				format!("a directory holding {} {:?} is reported as {t:?}, which has is_vcs={} is_soft={}", if c.as_dir { "the directory" } else { "the file" }, c.name, t.is_vcs(), t.is_soft()),
+			);
+			return o;
+		}
+	}
+	o
+}
+
 pub fn check(e: &Engine) {
 	e.assume("origin marker list transcribed from the implementation (the docs do not enumerate it); marker -> type table and VCS/Soft classes transcribed from the ProjectType variant docs");
 	match source_variants() {
@@ -370,6 +437,14 @@ pub fn check(e: &Engine) {
 		}
 		None => e.inconclusive("cannot read the ProjectType enum from the source file"),
 	}
+	let cands = source_marker_candidates();
+	e.enumerate(
+		"source-markers",
+		"every string literal of crates/project-origins/src/lib.rs that could be a marker name, placed alone in a directory as a file and as a directory: each project type that types() reports for it must be exactly one of version control / software suite (the harness names no variant here, so a type it has never heard of is covered too); non-trivial = the entry is recognised",
+		true,
+		cands.iter().flat_map(|n| [true, false].into_iter().map(move |as_dir| SourceMarkerCase { name: n.clone(), as_dir })).collect::<Vec<_>>(),
+		&run_source_marker,
+	);
 	e.enumerate(
 		"classification",
 		"every ProjectType variant: is_vcs XOR is_soft, and equal to the documented class",
